@@ -387,12 +387,13 @@ impl TreeSys for Fam {
         self.max_len
     }
     fn name(&self) -> String {
-        ["encodings", "transparency", "transparency-pairs"][self.kind as usize].to_string()
+        ["encodings", "transparency", "transparency-pairs", "encodings-inf"][self.kind as usize].to_string()
     }
     fn visit(&self, w: &[u8], _p: Option<&()>, ctx: &mut Ctx) {
         match self.kind {
             0 => check_encodings(w, &self.alpha, ctx),
             1 => check_transparency(w, &self.alpha, self.max_nulls, ctx),
+            3 => check_encodings_x("encodings-inf", w, decode(w, &self.alpha), &self.alpha, ctx),
             _ => check_transparency2(w, &self.alpha, ctx),
         }
     }
@@ -404,6 +405,8 @@ fn main() {
     let base_alpha: Vec<X> = vec![Some(-2.0), Some(0.0), Some(1.0), Some(3.0)];
     let tr = Fam { alpha: base_alpha.clone(), max_len: run.pick(4, 6), kind: 1, max_nulls: run.pick(2, 3) };
     let tr2 = Fam { alpha: vec![Some(0.0), Some(1.0), Some(3.0)], max_len: run.pick(3, 5), kind: 2, max_nulls: 2 };
+    // infinities are valid observations under both encodings (only NaN / None are null)
+    let enc_inf = Fam { alpha: vec![None, Some(f64::NEG_INFINITY), Some(0.0), Some(1.0), Some(f64::INFINITY)], max_len: run.pick(4, 5), kind: 3, max_nulls: 0 };
     if let Some(path) = &run.replay {
         let stored = load_replay(path).unwrap_or_else(|e| {
             eprintln!("MACHINERY-ERROR: {e}");
@@ -413,6 +416,7 @@ fn main() {
         let word = syms_from_json(&stored["case"]["word"]);
         match stored["case"]["family"].as_str().unwrap_or("") {
             "encodings" => check_encodings(&word, &enc.alpha, &mut ctx),
+            "encodings-inf" => check_encodings_x("encodings-inf", &word, decode(&word, &enc_inf.alpha), &enc_inf.alpha, &mut ctx),
             "encodings-long" => check_encodings_x("encodings-long", &[], word_from_json(&stored["case"]["series"]), &enc.alpha, &mut ctx),
             "transparency" => check_transparency(&word, &tr.alpha, 3, &mut ctx),
             _ => check_transparency2(&word, &tr2.alpha, &mut ctx),
@@ -420,6 +424,7 @@ fn main() {
         std::process::exit(finish_replay(&run, &stored, ctx));
     }
     let mut total = explore_tree(&enc, run.threads);
+    total.merge(explore_tree(&enc_inf, run.threads));
     total.merge(explore_tree(&tr, run.threads));
     total.merge(explore_tree(&tr2, run.threads));
     total.merge(encodings_long(!run.quick(), run.threads, &enc.alpha));
